@@ -807,8 +807,9 @@ class SSHChannel(Generic[AnyStr], SSHPacketHandler):
 
         self.logger.info('Aborting channel')
 
-        if self._send_state not in {'close_pending', 'closed'}:
-            # Send an immediate close, discarding unsent data
+        if self._send_state != 'closed':
+            # Send an immediate close, discarding unsent data, also when
+            # a clean close is still waiting for that data to be sent
             self._close_send()
 
         if self._recv_state != 'closed':
